@@ -98,6 +98,11 @@ def main(tier_):
                               calls=[dict(op="reopen_in_thread", path="d/t_" + kind, decoy="root/decoy", oflags=fl)],
                               meta=dict(g=dict(kind=kind, acc="RDONLY", extra="", num=999, hist="thread-private-fd-table, host /proc replaced by a tmpfs with only 'self'", expect=dict(ok=True, ino=1)),
                                         api="rust", backend=fname, oflags=fl, thread=True)))
+    # the O_NOCTTY half of "plus O_CLOEXEC|O_NOCTTY": a session leader without controlling terminal reopens a pty slave
+    for api in ("rust", "c"):
+        for fname, feat in scenarios.FEATS[:2]:
+            cases.append(dict(id="tty|%s|%s" % (api, fname), tree=TREE, feat=feat, trace=False, calls=[dict(op="reopen_tty", api=api, oflags=O["RDWR"])],
+                              meta=dict(g=dict(kind="tty", acc="RDWR", extra="", num=999, hist="session leader without controlling terminal", expect=dict(ok=True, ino=1)), api=api, backend=fname, oflags=O["RDWR"], tty=True)))
     # ... and a failing call in that environment is an ordinary error (the error paths pretty-print descriptors through /proc)
     for fname, feat in scenarios.FEATS:
         cases.append(dict(id="procmount|missing|%s" % fname, tree=TREE, feat=feat, trace=False, cold=True, mounts=[dict(target="/proc", kind="tmpfs", src="")],
@@ -116,6 +121,17 @@ def main(tier_):
             continue
         rs = r["out"][0]["results"]
         h, x = rs[0], rs[-1]
+        if c["meta"].get("tty"):
+            if x.get("skip"):
+                stats["skipped"] += 1
+            elif not x.get("ok"):
+                v.violation(dict(check="reopen-tty", what="failed", api=c["meta"]["api"]), "C09: reopen(O_RDWR) of a pty slave failed: %s" % json.dumps(x)[:200], c)
+            else:
+                stats["cases"] += 1
+                if x.get("ctty"):
+                    v.violation(dict(check="reopen-tty", what="controlling terminal acquired", api=c["meta"]["api"]),
+                                "C09: reopen(O_RDWR) of a pty slave by a session leader without controlling terminal made it the controlling terminal [%s API, %s]: the reopen lacks O_NOCTTY" % (c["meta"]["api"], c["meta"]["backend"]), c)
+            continue
         if c["meta"].get("thread"):
             h = x.get("handle") or {}
             h.setdefault("ok", bool(h.get("id")))
